@@ -190,6 +190,24 @@ def virtVal (cx : Ctx) (t : Table) (r : Row) (c : Column) : Option Val :=
         | some x => Json.arr #[.str hn, .str d, num (x.int "state"), num (x.int "has_been_checked")]
         | none => Json.null))
     else none
+  | "comments_with_info" | "downtimes_with_info" =>
+    -- `VirtualColCommentsWithInfo` / `VirtualColDowntimesWithInfo` (hosts, services): the entries named in the object's id
+    -- list, looked up in the comments / downtimes table of the same backend; an id that is not found is left out
+    let num := fun (x : Int) => Json.num ⟨x, 0⟩
+    let isC := c.name == "comments_with_info"
+    let tn := if isC then "comments" else "downtimes"
+    let et := cx.table tn
+    let ids := match r.cell? tn with | some (.il v) => v | _ => []
+    some (.jl (ids.filterMap fun id =>
+      match (b.rows tn).reverse.find? (fun x => x.int "id" == id) with
+      | some x =>
+        some (Json.arr (if isC then
+          #[num id, .str (x.str et "author"), .str (x.str et "comment"), num (x.int "entry_time"), num (x.int "entry_type"),
+            num (x.int "expires"), num (x.int "expire_time")]
+        else
+          #[num id, .str (x.str et "author"), .str (x.str et "comment"), num (x.int "entry_time"), num (x.int "start_time"),
+            num (x.int "end_time"), num (x.int "fixed"), num (x.int "duration"), num (x.int "triggered_by")]))
+      | none => none))
   | "services_with_state" | "services_with_info" =>
     -- `VirtualColServicesWithInfo` (hosts): the services named in the host's `services` list
     let num := fun (x : Int) => Json.num ⟨x, 0⟩
